@@ -60,10 +60,33 @@ def post_C11(stats, tier):
     return out
 
 
+def post_C01(stats, tier):
+    """closure clause: every cell any API returned in the *other* monitors went through the same reference predicate
+    (vf_out_cell); their per-API counts from the latest evidence files are folded into C01's evidence (a violation there
+    is reported by that monitor, kind invalid-output)."""
+    import glob, json, os
+    here = os.path.dirname(os.path.dirname(os.path.abspath(__file__)))
+    total = 0
+    for f in sorted(glob.glob(os.path.join(here, "evidence", "C*.json"))):
+        if f.endswith("C01.json"):
+            continue
+        try:
+            c = json.load(open(f))["coverage"]["counters"]
+        except Exception:
+            continue
+        for k, v in c.items():
+            if k.startswith("outcells."):
+                stats["closure_other_checks." + k[9:]] = stats.get("closure_other_checks." + k[9:], 0) + v
+                total += v
+    stats["closure_other_checks.total_cells_validated"] = total
+    return []
+
+
 PROPS = {
     "C01": {
         "sources": KIT + ["mon_C01.c"],
         "phases": [{"name": "main", "config": "plain"}, {"name": "closure", "config": "asan"}],
+        "post": post_C01,
         "level": "exploration",
         "level_text": "Differential execution of the real isValidCell against a predicate written from the documented bit layout: exhaustive over all 2^19 "
                       "settings of the top 19 bits (x ~200 digit strings each) and over every 8^5 assignment of every window of five neighbouring digit "
